@@ -55,6 +55,23 @@ impl NodeProcessor for Processor {
             return;
         }
 
+        let has_duplicated_names =
+            assignment
+                .iter_variables()
+                .enumerate()
+                .any(|(index, variable)| {
+                    assignment
+                        .iter_variables()
+                        .skip(index + 1)
+                        .any(|other| other.get_name() == variable.get_name())
+                });
+
+        if has_duplicated_names {
+            // variables get re-ordered, which would change which one of the
+            // variables with the same name is visible after the statement
+            return;
+        }
+
         let mut remove_values_at = Vec::new();
         for (index, value) in assignment.iter_values().enumerate() {
             if matches!(value, Expression::Nil(_)) {
